@@ -78,11 +78,19 @@ def rewire(n, rng):
             for p in pins:
                 x = rng.random()
                 if x < 0.25:
+                    # every spelling of the public API: the pin object itself or, for an instance pin, a by-value handle
+                    # built from (instance, inner pin); single and bulk calls
+                    handle = p
+                    if isinstance(p, sdn.OuterPin) and rng.random() < 0.5:
+                        handle = sdn.OuterPin.from_instance_and_inner_pin(p.instance, p.inner_pin)
                     if p.wire is not None:
-                        p.wire.disconnect_pin(p)
+                        if rng.random() < 0.5:
+                            p.wire.disconnect_pin(handle)
+                        else:
+                            p.wire.disconnect_pins_from([handle])
                         moved += 1
                     if x < 0.18:
-                        rng.choice(wires).connect_pin(p)
+                        rng.choice(wires).connect_pin(handle)
                         moved += 1
     return moved
 
@@ -97,7 +105,14 @@ def run_case(ctx, i, rng):
     # the same questions again, in the same process, after the netlist was rewired: answers must follow the
     # netlist as it is now (nothing remembered from earlier queries)
     for round_ in range(2):
-        moved = rewire(n, rng)
+        try:
+            moved = rewire(n, rng)
+        except Exception as ex:  # noqa: BLE001 - every call in rewire() has valid arguments for the netlist as it should be
+            from .. import probes
+            ctx.violation("valid-edit-refused-during-rewire:%s" % type(ex).__name__,
+                          "a disconnect/connect with valid arguments raised %r at %s (state left by an earlier edit?) | %s" % (
+                              ex, probes.innermost_frame(ex), st))
+            return
         ctx.count("rewired_pins", moved)
         r2 = check_netlist(ctx, i, rng, n, st, "after-rewire:")
         if r2 is None:
